@@ -126,6 +126,7 @@ def judge(case):
         R_vol = rotation_parts(case["b_alg"], n_b)[3]
         idx = np.arange(n)
         want_V = P_vol[idx // n_b] * R_vol[idx % n_b] * float(case["factor"]) ** 3
+        info["min_volume"] = float(V.min()) if len(V) else 1.0
         if not np.allclose(V, want_V, rtol=1e-12, atol=0):
             i = int(np.argmax(np.abs(V - want_V)))
             msgs.append(f"saved volume of row {i} = {V[i]!r}, but the cell of that row has volume {want_V[i]!r} (grid order)")
@@ -147,12 +148,17 @@ def judge(case):
                 a, c = ii[pos][k], jj[pos][k]
                 msgs.append(f"detailed balance violated for cells ({a},{c}): log(Q_ij/Q_ji) = {lhs[k]!r}, "
                             f"log(pi_j/pi_i) = {rhs[k]!r}")
+        # stationarity, column by column with the weights taken relative to the column's own cell (a global exp(-E/RT) would
+        # underflow on steep landscapes): sum_i pi_i/pi_j Q_ij = 0
         logpi = np.log(V) - E / (R_KJ * T)
-        pi = np.exp(logpi - logpi.max())
-        flow = pi[:, None] * Qd
+        rel_exp = np.where(Qd != 0, logpi[:, None] - logpi[None, :], 0.0)
+        decidable = np.abs(rel_exp).max(axis=0) < 600
+        with np.errstate(over="ignore", invalid="ignore"):
+            flow = np.where(Qd != 0, np.exp(np.clip(rel_exp, -745, 700)) * Qd, 0.0)
         resid = np.abs(flow.sum(axis=0))
-        if (resid > 1e-9 * np.abs(flow).sum(axis=0) + 1e-300).any():
-            msgs.append(f"V exp(-E/RT) is not stationary: max |pi Q|_j relative {float((resid / (np.abs(flow).sum(axis=0) + 1e-300)).max()):.3g}")
+        bad = decidable & (resid > 1e-9 * np.abs(flow).sum(axis=0) + 1e-300)
+        if bad.any():
+            msgs.append(f"V exp(-E/RT) is not stationary: max |pi Q|_j relative {float((resid / (np.abs(flow).sum(axis=0) + 1e-300))[bad].max()):.3g}")
         # a second rate matrix from the very same loaded objects (other temperature and energies), as a parameter scan would
         # build it: the loaded geometry must not have been consumed by the first call
         S_before, H_before, V_before = dense(S).copy(), dense(H).copy(), V.copy()
@@ -218,8 +224,15 @@ def judge(case):
                 msgs.append(f"decomposition {setting}: largest eigenvalue {ev[0]!r} is not zero (spectral radius {rho!r})")
             v0 = evec[:, 0]
             v0 = v0 / v0[np.argmax(np.abs(v0))]
+            pi = np.exp(logpi - logpi.max())
             target = pi / pi.max()
             gap = ref[0] - ref[1] if n > 1 else rho
+            if gap < 1e-6 * rho:
+                # the zero eigenvalue is separated from the next one by less than 1e-6 of the spectral radius (time scales of
+                # rotation and translation far apart, e.g. factor 5e-4): an iterative solver run to tol 1e-10 cannot resolve the
+                # eigenvector; eigenvalues were judged above, the vector is not judged
+                info["eigenvector_not_judged_gap_below_1e-6_rho"] = True
+                continue
             tol_vec = 1e-6 * target + 1e-8 * max(1.0, rho / max(gap, 1e-300) * 1e-2)
             if (np.abs(v0 - target) > tol_vec).any():
                 i = int(np.argmax(np.abs(v0 - target) - tol_vec))
@@ -256,7 +269,7 @@ def _shard(arg):
         cart = draw(st.booleans()) and n_o >= 3
         return {"b_alg": draw(st.sampled_from(["cube4D", "randomQ"])), "n_b": n_b,
                 "o_alg": draw(st.sampled_from(["ico", "cube3D", "randomS"])), "n_o": n_o, "radii": radii,
-                "factor": draw(st.sampled_from([2.0, 1.0, 0.5, 3.0, 4.0])), "cartesian": cart,
+                "factor": draw(st.sampled_from([2.0, 1.0, 0.5, 3.0, 4.0, 2.0, 1e-3, 5e-4, 0.02, 60.0])), "cartesian": cart,
                 "e_seed": draw(st.integers(0, 10 ** 6)), "e_sigma": draw(st.sampled_from([0.0, 0.5, 2.0, 6.0, 6.0, 60.0, 200.0])),
                 "e_shift": draw(st.sampled_from([0.0, -250.0, 40.0])),
                 "T": draw(st.sampled_from([150.0, 200.0, 273.15, 300.0, 400.0])), "D": draw(st.sampled_from([0.1, 1.0, 10.0])),
@@ -272,7 +285,9 @@ def _shard(arg):
                      classes=[f"b={case['b_alg'] if case['n_b'] > 1 else 'zero4D'}", "cartesian" if case["cartesian"] else "spherical"]
                      + (["arpack_inconclusive"] if info.get("arpack_inconclusive") else [])
                      + (["skipped_" + info["skipped"]] if "skipped" in info else [])
-                     + (["radial_energy_ramp_many_shells"] if case.get("e_ramp") else []))
+                     + (["radial_energy_ramp_many_shells"] if case.get("e_ramp") else [])
+                     + (["tiny_cell_volumes(<1e-8)"] if info.get("min_volume", 1) < 1e-8 else [])
+                     + (["eigenvector_not_judged_gap_below_1e-6_rho"] if info.get("eigenvector_not_judged_gap_below_1e-6_rho") else []))
             if info.get("f15_regular_mode_missing_eigenvalue"):
                 k15 = [k for k in load_known("C14") if k["id"] == "F15"]
                 if k15:
